@@ -2,6 +2,7 @@
 //! Usage: vcheck <PROPERTY> --tier quick|thorough [--replay FILE]
 
 mod c01;
+mod c01_typed;
 mod c02;
 mod envs;
 mod explore;
